@@ -87,7 +87,7 @@ def run(ctx, res):
                 "thorough): %d configurations, each applied to %d operation-file shapes (named / anonymous / two operations / "
                 "operation + lower- and upper-case fragments / fragments only / imported fragment / subscription / an operation and a local or imported fragment with the same name). The real CLI "
                 "writes the declaration files, the real loader ABI emits the module from the same configuration text (every second time on an instance "
-                "that loaded another configuration and emitted under it before); impl->spec: "
+                "that loaded another configuration and emitted under it before, the task overlapping with two tasks of other files); impl->spec: "
                 "Trace_C14 evaluates Exports!ExportItems (names subset, default present, same definition - via the source-map "
                 "segment of the declaring identifier, or the embedded document in standalone mode). Non-trivial = event with at "
                 "least one declared value export or default export." % (len(cfgs), len(sh)))
